@@ -8,11 +8,14 @@ PROP = {'gen': [],
  'props_module': 'Props.C13',
  'corr_check': 'SNT.Corr.C13Corr.c13_check (models Image/KDTree.v, Image/Octree.v, Image/Quantize.v vs '
                'surf_n_term::image::{KDTree, ColorPalette, OcTree} and Image::quantize)',
- 'level_text': 'Coq theorems over executable models of KDTree, OcTree, ColorPalette::from_image and Image::quantize: nearest-colour '
-               'search returns a minimal-distance entry for every palette (any length >= 1, duplicates) and every query; for every '
-               'non-empty image and k >= 1 palette extraction terminates (explicit fuel bound, stale caches included) with 1..max(k,8) '
-               'colours, every index is valid for any dithering error, undithered pixels map to nearest entries, and images whose '
-               'colours fit are reproduced exactly with and without dithering. Models tied to the code by exact differential runs.',
+ 'level_text': 'Coq theorems over executable models of KDTree, OcTree (packed OcTreePath proved equal to its lane-wise form for every '
+               'colour), ColorPalette::from_image and Image::quantize: nearest-colour search returns a minimal-distance entry for every '
+               'palette (any length >= 1, duplicates) and every query; for every non-empty image and every requested size >= 1 (up to '
+               'usize::MAX since the saturating-product fix) palette extraction terminates (explicit fuel bound, stale caches and '
+               'unreachable!() arms as Panic sites included) with 1..max(k,8) colours, every index is valid for any dithering error, '
+               'undithered pixels map to nearest entries, images whose colours fit are reproduced exactly with and without dithering; '
+               'the Floyd-Steinberg slots stay within 255.0 (exactness of the f32 arithmetic). Models tied to the code by exact '
+               'differential runs incl. sub-sampled images up to 10k pixels, crops of large parents and the Rnd stream.',
  'level_note': 'Trusted: Coq kernel + vm_compute; hand-written models validated by the correspondence run; '
                'rasterize blend_over enters as an oracle (effective pixels). No axioms.',
  'technique': 'Coq proof (k-d invariant, octree measure/invariants, induction over pixels) + model/implementation correspondence',
@@ -25,6 +28,9 @@ PROP = {'gen': [],
                   'hand-written models Image/KDTree.v, Image/Octree.v, Image/Quantize.v of src/image.rs, tied to the code by the '
                   'correspondence run (exact equality of palettes, indices, octree dumps)',
                   'rasterize::RGBA::blend_over (alpha compositing) is an oracle: the harness passes effective pixels',
+                  'Floyd-Steinberg errors are modelled in Z sixteenths instead of f32: justified by C13_dither_slots (every slot is a '
+                  'multiple of 1/16 within 255.0, so each binary32 operation of the code is exact) and by the exact '
+                  'correspondence of dithered index images',
                   HARNESS],
- 'assumptions': ['requested palette size >= 1 (0 divides by zero in from_image)',
+ 'assumptions': ['requested palette size >= 1 (0 divides by zero in from_image); every size up to usize::MAX is covered since the fix 38c2d5c (saturating product)',
                  'usize accumulators do not overflow (needs > 2^56 pixels)']}
